@@ -81,6 +81,7 @@ pub fn gen(rng: &mut Rng, kind: &str, size: &str, profile: &str) -> Scenario {
         "budget" => return gen_budget(rng, kind, size),
         "churn" => return gen_churn(rng, kind, size),
         "limit0" => return gen_limit0(rng, kind, size),
+        "manygroups" => return gen_manygroups(rng, kind, size),
         "panic" | "dpanic" => {
             // a mixed scenario in which one child panics in a poll ("panic") or one child's destructor panics ("dpanic")
             let mut sc = gen(rng, kind, size, "mix");
@@ -402,7 +403,8 @@ fn gen_oscillate(rng: &mut Rng, kind: &str, size: &str) -> Scenario {
         sc.ctor = "from_iter".into();
         sc.cap = peak as usize;
     }
-    let cycles = if real { 6 + rng.below(10) } else { 2 + rng.below(4) };
+    // (half of the real-size runs oscillate long enough for a per-cycle allocation to exceed the logarithmic bound)
+    let cycles = if real { if rng.pct(50) { 6 + rng.below(10) } else { 40 + rng.below(30) } } else { 2 + rng.below(4) };
     let mut next = 1u32;
     let ready = |_c: u32| vec![Step { acts: vec![], resp: if stream { "E" } else { "R" }.into() }];
     if kind == "mb" {
@@ -443,6 +445,34 @@ fn gen_stale(rng: &mut Rng, kind: &str, size: &str) -> Scenario {
     let real = size == "real";
     let n: u32 = if real { rng.pick(&[10u32, 50, 62, 100, 130, 180]) } else { 2 + rng.below(4) as u32 };
     gen_stale_n(rng, kind, n)
+}
+
+/// many small groups of an unbounded collection alive at once (first capacity 1: 1, 2, 4, 8, 16 ...), everybody pending
+fn gen_manygroups(rng: &mut Rng, kind: &str, _size: &str) -> Scenario {
+    let mut sc = Scenario { kind: kind.into(), ctor: "with_capacity".into(), cap: 1, ..Default::default() };
+    let n = 16 + rng.below(50) as u32;
+    let stream = is_stream_kind(kind);
+    for c in 1..=n {
+        let mut st = vec![Step { acts: vec![], resp: "P".into() }, Step { acts: vec![], resp: "P".into() }];
+        if rng.pct(30) {
+            st.push(Step { acts: vec![], resp: if stream { "E" } else { "R" }.into() });
+        }
+        sc.scripts.insert(c, st);
+        if stream {
+            sc.stream_left.insert(c, 0);
+        }
+        sc.ops.push(Op::Push { c, front: false, r#try: false });
+    }
+    for _ in 0..3 {
+        sc.ops.push(Op::Poll { w: 1 });
+    }
+    for _ in 0..rng.below(6) {
+        let c = 1 + rng.below(n as u64) as u32;
+        sc.ops.push(Op::Wake { c, by_val: false });
+        sc.ops.push(Op::Poll { w: if rng.pct(70) { 1 } else { 2 } });
+    }
+    sc.tail = if rng.pct(70) { "quiet" } else { "drain" }.into();
+    sc
 }
 
 /// documented limit 0 of for_each_concurrent ("no limit")
